@@ -130,3 +130,63 @@ func anyHintPass(out *Out, cfg *Cfg) {
 		}
 	}
 }
+
+// ownWktPass: a schema that carries its OWN descriptor instances of google/protobuf/{timestamp,duration,field_mask}
+// (a self-contained FileDescriptorSet resolved with protodesc.NewFiles, messages through dynamicpb), generated AFTER
+// the process has already generated the same well-known types from the global registry: anything remembered per
+// well-known type name across generator calls (field descriptors, message types) is foreign to these messages.
+func ownWktPass(out *Out, cfg *Cfg) {
+	opt := descriptorpb.FieldDescriptorProto_LABEL_OPTIONAL.Enum()
+	rep := descriptorpb.FieldDescriptorProto_LABEL_REPEATED.Enum()
+	msgT := descriptorpb.FieldDescriptorProto_TYPE_MESSAGE.Enum()
+	f := func(name string, num int32, label *descriptorpb.FieldDescriptorProto_Label, tn string) *descriptorpb.FieldDescriptorProto {
+		return &descriptorpb.FieldDescriptorProto{Name: proto.String(name), JsonName: proto.String(name), Number: proto.Int32(num), Label: label, Type: msgT, TypeName: proto.String(tn)}
+	}
+	set := &descriptorpb.FileDescriptorSet{}
+	for _, p := range []string{"google/protobuf/timestamp.proto", "google/protobuf/duration.proto", "google/protobuf/field_mask.proto"} {
+		fd, err := protoregistry.GlobalFiles.FindFileByPath(p)
+		if err != nil {
+			out.Violate("HARNESS", "ownwkt-schema", err.Error(), "ownwkt")
+			return
+		}
+		set.File = append(set.File, protodesc.ToFileDescriptorProto(fd))
+	}
+	set.File = append(set.File, &descriptorpb.FileDescriptorProto{
+		Name: proto.String("verif/ownwkt.proto"), Package: proto.String("verif.ownwkt"), Syntax: proto.String("proto3"),
+		Dependency: []string{"google/protobuf/timestamp.proto", "google/protobuf/duration.proto", "google/protobuf/field_mask.proto"},
+		MessageType: []*descriptorpb.DescriptorProto{{Name: proto.String("Holder"), Field: []*descriptorpb.FieldDescriptorProto{
+			f("at", 1, opt, ".google.protobuf.Timestamp"), f("took", 2, opt, ".google.protobuf.Duration"), f("mask", 3, opt, ".google.protobuf.FieldMask"),
+			f("ats", 4, rep, ".google.protobuf.Timestamp")}}},
+	})
+	files, err := protodesc.NewFiles(set)
+	if err != nil {
+		out.Violate("HARNESS", "ownwkt-schema", err.Error(), "ownwkt")
+		return
+	}
+	d, err := files.FindDescriptorByName("verif.ownwkt.Holder")
+	if err != nil {
+		out.Violate("HARNESS", "ownwkt-schema", err.Error(), "ownwkt")
+		return
+	}
+	holder := d.(protoreflect.MessageDescriptor)
+	seeds := 40
+	if cfg.Tier == "thorough" {
+		seeds = 1000
+	}
+	for seed := 0; seed < seeds; seed++ {
+		sd := int(cfg.Seed)*100000 + 13000 + seed
+		replay := fmt.Sprintf("rapid verif.ownwkt.Holder (own descriptor instances of the well-known types, dynamicpb) seed=%d", sd)
+		opts := rapidproto.GeneratorOptions{}
+		if seed%2 == 1 {
+			opts = opts.WithDisallowNil()
+		}
+		var m proto.Message
+		if p, pm := guard(func() { m = genExample(dynamicpb.NewMessage(holder), opts, sd) }); p {
+			out.Violate("C18", "gen-panic:ownwkt", "generator failed on a schema with its own well-known-type descriptors: "+firstLine(pm), replay)
+			return
+		}
+		out.Case(replay, true)
+		out.Count("ownwkt_examples")
+		walkGenerated(out, "ownwkt", opts, m.ProtoReflect(), replay, 0)
+	}
+}
